@@ -201,7 +201,10 @@ sendIMessage(CS104_Connection self, Frame frame)
 {
     T104Frame_prepareToSend((T104Frame) frame, self->sendCount, self->receiveCount);
 
-    writeToSocket(self, T104Frame_getBuffer(frame), T104Frame_getMsgSize(frame));
+    /* nothing was written (the socket takes nothing at the moment, or the write failed): the frame was not sent,
+     * its sequence number is not used up and the caller is told */
+    if (writeToSocket(self, T104Frame_getBuffer(frame), T104Frame_getMsgSize(frame)) <= 0)
+        return -1;
 
     self->sendCount = (self->sendCount + 1) % 32768;
 
@@ -1238,10 +1241,15 @@ CS104_Connection_sendStopDT(CS104_Connection self)
 #endif /* (CONFIG_USE_SEMAPHORES == 1) */
 }
 
-static void
+static bool
 sendIMessageAndUpdateSentASDUs(CS104_Connection self, Frame frame)
 {
     int currentIndex = 0;
+
+    int seqNo = sendIMessage (self, frame);
+
+    if (seqNo < 0)
+        return false;
 
     if (self->oldestSentASDU == -1)
     {
@@ -1254,10 +1262,12 @@ sendIMessageAndUpdateSentASDUs(CS104_Connection self, Frame frame)
         currentIndex = (self->newestSentASDU + 1) % self->maxSentASDUs;
     }
 
-    self->sentASDUs [currentIndex].seqNo = sendIMessage (self, frame);
+    self->sentASDUs [currentIndex].seqNo = seqNo;
     self->sentASDUs [currentIndex].sentTime = Hal_getMonotonicTimeInMs();
 
     self->newestSentASDU = currentIndex;
+
+    return true;
 }
 
 static bool
@@ -1273,8 +1283,7 @@ sendASDUInternal(CS104_Connection self, Frame frame)
 
         if (isSentBufferFull(self) == false)
         {
-            sendIMessageAndUpdateSentASDUs(self, frame);
-            retVal = true;
+            retVal = sendIMessageAndUpdateSentASDUs(self, frame);
         }
 
 #if (CONFIG_USE_SEMAPHORES == 1)
